@@ -252,4 +252,100 @@ theorem sweep_wf (wf : h.WF) (m : σ) : (sweep S h m).1.WF := by
     · cases he
     · exact wf.inRange a e he
 
+
+/-! ### histories keep the registry well formed; every collection event is a `collect` of a well-formed heap -/
+
+theorem register_wf {h : Heap} (wf : h.WF) (a : Addr) (e : Entry) (ha : a % 8 = 0) : (h.register a e).WF := by
+  unfold Heap.register
+  split
+  · exact wf
+  · constructor
+    · intro x e' he
+      simp only at he
+      by_cases hx : x = a
+      · subst hx; exact ha
+      · simp only [hx, if_false] at he; exact wf.aligned x e' he
+    · intro x e' he
+      simp only at he ⊢
+      by_cases hx : x = a
+      · subst hx; exact ⟨Nat.min_le_right _ _, Nat.le_max_right _ _⟩
+      · simp only [hx, if_false] at he
+        have := wf.inRange x e' he
+        exact ⟨Nat.le_trans (Nat.min_le_left _ _) this.1, Nat.le_trans this.2 (Nat.le_max_left _ _)⟩
+
+theorem write_wf {h : Heap} (wf : h.WF) (a : Addr) (o : Obj) : (h.write a o).WF := by
+  constructor
+  · intro x e' he
+    simp only [Heap.write] at he
+    by_cases hx : x = a
+    · subst hx
+      simp only [if_true] at he
+      cases hl : h.lookup x with
+      | none => simp [hl] at he
+      | some e0 => exact wf.aligned x e0 hl
+    · simp only [hx, if_false] at he; exact wf.aligned x e' he
+  · intro x e' he
+    simp only [Heap.write] at he ⊢
+    by_cases hx : x = a
+    · subst hx
+      simp only [if_true] at he
+      cases hl : h.lookup x with
+      | none => simp [hl] at he
+      | some e0 => exact wf.inRange x e0 hl
+    · simp only [hx, if_false] at he; exact wf.inRange x e' he
+
+theorem remove_wf {h : Heap} (wf : h.WF) (a : Addr) : (h.remove a).WF := by
+  constructor
+  · intro x e' he
+    simp only [Heap.remove] at he
+    by_cases hx : x = a
+    · simp [hx] at he
+    · simp only [hx, if_false] at he; exact wf.aligned x e' he
+  · intro x e' he
+    simp only [Heap.remove] at he ⊢
+    by_cases hx : x = a
+    · simp [hx] at he
+    · simp only [hx, if_false] at he; exact wf.inRange x e' he
+
+theorem step_wf {σ : Type} (S : MarkSet σ) (c : Cfg) (s : HState) (op : HOp) (wf : s.heap.WF) (hok : op.ok) :
+    (s.step S c op).1.heap.WF := by
+  cases op with
+  | alloc a e => exact register_wf wf a e hok
+  | write a o => exact write_wf wf a o
+  | del a => exact remove_wf wf a
+  | setThread t => exact wf
+  | setStack ws => exact wf
+  | collect => exact sweep_wf S s.heap wf _
+
+theorem step_event {σ : Type} (S : MarkSet σ) (c : Cfg) (s : HState) (op : HOp) (ev : Event)
+    (he : (s.step S c op).2 = some ev) :
+    ev.before = s ∧ ev.pending = (collect S c s.heap s.thread s.stack).2 := by
+  cases op <;> simp only [HState.step] at he <;> cases he
+  exact ⟨rfl, rfl⟩
+
+theorem run_events {σ : Type} (S : MarkSet σ) (c : Cfg) : ∀ (ops : List HOp) (s : HState), s.heap.WF →
+    (∀ op ∈ ops, op.ok) →
+    (HState.run S c ops s).1.heap.WF ∧
+    ∀ ev ∈ (HState.run S c ops s).2, ev.before.heap.WF ∧
+      ev.pending = (collect S c ev.before.heap ev.before.thread ev.before.stack).2 := by
+  intro ops
+  induction ops with
+  | nil => intro s wf _; exact ⟨wf, fun ev hev => by simp [HState.run] at hev⟩
+  | cons op ops ih =>
+    intro s wf hok
+    have wf1 := step_wf S c s op wf (hok op List.mem_cons_self)
+    obtain ⟨h1, h2⟩ := ih (s.step S c op).1 wf1 (fun o ho => hok o (List.mem_cons_of_mem _ ho))
+    simp only [HState.run]
+    refine ⟨h1, ?_⟩
+    intro ev hev
+    cases hs : (s.step S c op).2 with
+    | none => rw [hs] at hev; exact h2 ev hev
+    | some e0 =>
+      rw [hs] at hev
+      rcases List.mem_cons.mp hev with heq | hmem
+      · subst heq
+        obtain ⟨hb, hp⟩ := step_event S c s op ev hs
+        rw [hb]; exact ⟨wf, by rw [hp]⟩
+      · exact h2 ev hmem
+
 end Cello.Heap
